@@ -72,6 +72,7 @@ type Run struct {
 	Notes       []string
 	MaxPaths    int
 	PanicIsViolation bool
+	BlockIsViolation bool
 	Hook        MemHook
 	LoopBound   int
 	ReplayVals  []uint64
@@ -207,6 +208,17 @@ func (r *Run) runPath(st *State) {
 					// uncaught panic reached top
 					r.onUncaughtPanic(st)
 					return
+				}
+				if pe.kind == EndBlocked && r.BlockIsViolation {
+					r.Obligations++
+					if res, m := r.model(st); res == smt.Sat {
+						r.Violations = append(r.Violations, Violation{Label: "blocked", Msg: pe.msg, Pos: st.curPos(), Model: m,
+							Nondets: append([]Nondet(nil), st.Nondets...), Log: st.Log, Stack: st.stack(), History: st.History()})
+					} else if res == smt.Unsat {
+						r.Discharged++
+					} else {
+						r.UnknownObl++
+					}
 				}
 				if pe.kind == EndUnknown {
 					r.Eng.noteUnsupp(pe.msg)
